@@ -16,5 +16,9 @@ func init() {
 			"\tcase TypeNet:\n\t\tok = n == 8 || n == 32\n", "", "C11-V4", "super.DecodeNet"},
 		Mutant{"C11", "c11-validate-leaf-sizes-unchecked", "value.go", "Value.Validate",
 			"return checkPrimitiveSize(typ, body)", "return nil", "C11-V4", "super.DecodeFloat64"},
+		Mutant{"C19", "c19-poolpost-error-dead-on-a-path", "service/handlers.go", "handlePoolPost",
+			"meta, err := pool.Main(r.Context())\n\tif err != nil {", "meta, err := pool.Main(r.Context())\n\tif req.Thresh == 0 && err != nil {", "C19-E1", "handlePoolPost"},
+		Mutant{"C18", "c18-nulls-emit-error-dead-on-a-path", "vng/nulls.go", "NullsEncoder.Emit",
+			"if err := n.values.Emit(w); err != nil {\n\t\treturn err\n\t}", "if err := n.values.Emit(w); n.count == 0 && err != nil {\n\t\treturn err\n\t}", "C18-E1", "NullsEncoder).Emit"},
 	)
 }
